@@ -4,6 +4,15 @@ import json, os
 V = os.path.dirname(os.path.dirname(os.path.abspath(__file__)))
 
 CLAIMED = {
+ 'C03': dict(
+  text='Static decision of the structural clauses behind String memory safety and integer conversion identity: no `const char*`/`const String&` '
+       'argument (possibly the string itself or a piece of it) is used after the buffer was released or moved except through the offset re-basing '
+       'idiom (with summaries through operator=, +=, <<), overlapping self-copies use memmove, every numeric constructor\'s capacity choice covers '
+       'the widest text of the values admitted on each branch (interval arithmetic over the threshold constants, printf width table), the '
+       'integer-to-text helpers exclude the minimum value before negating, vsnprintf retry loops treat n == size as truncated. '
+       'Agreement with a byte-string model for search/replace/split is not decided.',
+  technique='alias-after-invalidate typestate dataflow with call-graph summaries; constant/interval evaluation of capacity thresholds against a printf width table; dominating-guard checks',
+  ref='DESIGN.md section 3 C03'),
  'C04': dict(
   text='Static decision of the structural clauses behind Var copy/assign/clone safety: tag dispatch of copy/free/operator=/clone covers exactly the '
        'heap-owning tags (read from isPod) with agreeing tag-to-union-member mapping, operator== covers every value-carrying tag, no `const Var&` '
